@@ -35,6 +35,9 @@ pub fn token() -> BoxedStrategy<String> {
         }),
         5 => (0usize..JUNK.len()).prop_map(|i| JUNK[i].to_string()),
         3 => (0usize..NEAR_MODIFIERS.len()).prop_map(|i| NEAR_MODIFIERS[i].to_string()),
+        // words that occur in real version strings (all of them are just letters to the rule)
+        3 => (prop::sample::select(vec!["patch", "final", "dev", "git", "svn", "cvs", "snapshot", "release", "stable", "test", "post", "rev", "build", "update", "p", "r", "v", "jdk", "src", "bin", "alpha", "beta", "pre", "rc", "pl"]), any::<bool>())
+            .prop_map(|(w, up)| if up { w.to_ascii_uppercase() } else { w.to_string() }),
     ]
     .boxed()
 }
